@@ -555,13 +555,14 @@ impl DefaultFunction {
             }
 
             DefaultFunction::Bls12_381_G1_HashToGroup
-            | DefaultFunction::Bls12_381_G2_HashToGroup => arg_stack.iter().all(|arg| {
-                if let Term::Constant(c) = arg {
-                    matches!(c.as_ref(), Constant::ByteString(..))
+            | DefaultFunction::Bls12_381_G2_HashToGroup => {
+                if let (Term::Constant(c1), Term::Constant(c2)) = (&arg_stack[0], &arg_stack[1]) {
+                    matches!(c1.as_ref(), Constant::ByteString(..))
+                        && matches!(c2.as_ref(), Constant::ByteString(dst) if dst.len() <= 255)
                 } else {
                     false
                 }
-            }),
+            }
 
             DefaultFunction::Bls12_381_G1_ScalarMul | DefaultFunction::Bls12_381_G2_ScalarMul => {
                 if let (Term::Constant(c1), Term::Constant(c2)) = (&arg_stack[0], &arg_stack[1]) {
